@@ -26,6 +26,7 @@ type Env struct {
 	fnPkg string
 	depth int
 	loopOld *Snapshot
+	inLoop  bool
 }
 
 func (e *Env) with(name string, v Val) *Env {
@@ -129,6 +130,16 @@ func (ex *Exec) lookupType(name string, env *Env) types.Type {
 		if o := env.pkg.Scope().Lookup(name); o != nil {
 			if tn, ok := o.(*types.TypeName); ok {
 				return tn.Type()
+			}
+		}
+	}
+	// qualified: pkg.Type
+	if i := strings.Index(name, "."); i > 0 {
+		if p := ex.lookupPkg(name[:i], env); p != nil {
+			if o := p.Scope().Lookup(name[i+1:]); o != nil {
+				if tn, ok := o.(*types.TypeName); ok {
+					return tn.Type()
+				}
 			}
 		}
 	}
